@@ -4,10 +4,10 @@ package main
 
 import (
 	"fmt"
-	"os"
 	"go/ast"
 	"go/token"
 	"go/types"
+	"os"
 	"runtime/debug"
 	"sort"
 	"strings"
@@ -25,11 +25,11 @@ type FnResult struct {
 }
 
 type VerifyOpts struct {
-	Prop       string
-	SafetyTags []string // property tags carried by automatic safety obligations
-	Safety     bool
+	Prop          string
+	SafetyTags    []string // property tags carried by automatic safety obligations
+	Safety        bool
 	AllowFnSafety bool // check mode: per-function `safety[...]` directives switch safety obligations on
-	Findings   []*Finding
+	Findings      []*Finding
 }
 
 func (P *Program) verifyFunction(key string, opts VerifyOpts) (res *FnResult) {
